@@ -108,7 +108,9 @@ func c04(r *Report) {
 	// the binds are unconditional: Configure succeeds only after every Bind succeeded (a skipped internal bind would let
 	// the dispatcher fall back to the public listener)
 	r.Gate(Gate{ID: "C04.binds.unconditional", Fn: p.Func(h, "Engine", "Configure"), Effect: SuccessReturn(), ForEach: true, Check: Check{Desc: "MultiEcho.Bind(<internal path>, Internal.Address) err == nil", Call: ptr(Fn(h, "MultiEcho", "Bind")), Result: -1, Pass: ErrNil,
-		Filter: func(ci ssa.CallInstruction) bool { return FieldPathEnds(CallArg(ci.Common(), 1), "Internal", "Address") }}})
+		Filter: func(ci ssa.CallInstruction) bool {
+			return FieldPathEnds(CallArg(ci.Common(), 1), "Internal", "Address")
+		}}})
 	r.Gate(Gate{ID: "C04.binds.root-unconditional", Fn: p.Func(h, "Engine", "Configure"), Effect: SuccessReturn(), Check: Check{Desc: "MultiEcho.Bind(\"/\", Public.Address) err == nil", Call: ptr(Fn(h, "MultiEcho", "Bind")), Result: -1, Pass: ErrNil,
 		Filter: func(ci ssa.CallInstruction) bool { return FieldPathEnds(CallArg(ci.Common(), 1), "Public", "Address") }}})
 	c04Binds(r)
